@@ -32,7 +32,16 @@ use crate::nts::verif_probe::gj::{self as rig, Rec};
 
 const T1: &str = "alpha";
 const T2: &str = "bravo";
-const TOKENS: [Option<&str>; 8] = [None, Some("wrong"), Some(""), Some("alph"), Some("alphaX"), Some("ALPHA"), Some(T1), Some(T2)];
+const TOKENS: [Option<&str>; 8] = [
+    None,
+    Some("wrong"),
+    Some(""),
+    Some("alph"),
+    Some("alphaX"),
+    Some("ALPHA"),
+    Some(T1),
+    Some(T2),
+];
 const CFGS: [&[&str]; 3] = [&[], &[T1], &[T1, T2]];
 
 #[derive(Clone, Copy, Debug, PartialEq, Eq, Hash)]
@@ -92,21 +101,36 @@ struct ReqView {
 
 fn view(req: &[u8]) -> Option<ReqView> {
     let recs = rig::dec(req)?;
-    let token = recs.iter().find(|r| r.kind() == 14).map(|r| String::from_utf8_lossy(&r.body).to_string());
+    let token = recs
+        .iter()
+        .find(|r| r.kind() == 14)
+        .map(|r| String::from_utf8_lossy(&r.body).to_string());
     let ka = recs.iter().any(|r| r.kind() == 8);
     let fk = recs.iter().find(|r| r.kind() == 12);
     let wp = recs.iter().any(|r| r.kind() == 9);
     let wa = recs.iter().any(|r| r.kind() == 10);
-    let alg = recs.iter().find(|r| r.kind() == 4).and_then(|r| r.u16s()).and_then(|v| v.first().copied());
+    let alg = recs
+        .iter()
+        .find(|r| r.kind() == 4)
+        .and_then(|r| r.u16s())
+        .and_then(|v| v.first().copied());
     let (kind, keys) = if let Some(fk) = fk {
         let n = fk.body.len() / 2;
-        (Kind::Fk(alg?), Some((fk.body[..n].to_vec(), fk.body[n..].to_vec())))
+        (
+            Kind::Fk(alg?),
+            Some((fk.body[..n].to_vec(), fk.body[n..].to_vec())),
+        )
     } else if wp || wa {
         (Kind::Sup(wp, wa), None)
     } else {
         (Kind::Ke, None)
     };
-    Some(ReqView { kind, token, ka, keys })
+    Some(ReqView {
+        kind,
+        token,
+        ka,
+        keys,
+    })
 }
 
 #[derive(Clone, Copy, Debug, PartialEq, Eq)]
@@ -126,7 +150,7 @@ struct Step {
 
 struct Obs {
     steps: Vec<Step>,
-    first: String,  // "Kept" | "Ok" | "Err(..)"
+    first: String, // "Kept" | "Ok" | "Err(..)"
     first_kept: bool,
     first_err: bool,
     permit_calls: u64,
@@ -143,7 +167,11 @@ fn keyset() -> Arc<KeySet> {
 }
 
 fn rt() -> tokio::runtime::Runtime {
-    tokio::runtime::Builder::new_current_thread().enable_time().start_paused(true).build().expect("runtime")
+    tokio::runtime::Builder::new_current_thread()
+        .enable_time()
+        .start_paused(true)
+        .build()
+        .expect("runtime")
 }
 
 fn session(
@@ -159,24 +187,37 @@ fn session(
             let (c, s) = tokio::io::duplex(4096);
             let cf = async {
                 let mut steps = Vec::new();
-                let Ok(mut tls) = connector.connect(rig::localhost(), c).await else { return steps };
+                let Ok(mut tls) = connector.connect(rig::localhost(), c).await else {
+                    return steps;
+                };
                 for req in script {
                     if tls.write_all(req).await.is_err() || tls.flush().await.is_err() {
                         break;
                     }
-                    let (response, complete) = match tokio::time::timeout(Duration::from_secs(5), rig::read_message(&mut tls)).await {
+                    let (response, complete) = match tokio::time::timeout(
+                        Duration::from_secs(5),
+                        rig::read_message(&mut tls),
+                    )
+                    .await
+                    {
                         Ok(Ok(r)) => (r, true),
                         Ok(Err((partial, _))) => (partial, false),
                         Err(_) => (Vec::new(), false), // silent but open
                     };
                     let mut b = [0u8; 1];
-                    let after = match tokio::time::timeout(Duration::from_secs(1), tls.read(&mut b)).await {
+                    let after = match tokio::time::timeout(Duration::from_secs(1), tls.read(&mut b))
+                        .await
+                    {
                         Err(_) => After::Open,
                         Ok(Ok(0)) => After::ClosedClean,
                         Ok(Ok(_)) => After::ExtraData,
                         Ok(Err(_)) => After::ClosedDirty,
                     };
-                    steps.push(Step { response, complete, after });
+                    steps.push(Step {
+                        response,
+                        complete,
+                        after,
+                    });
                     if after != After::Open {
                         break;
                     }
@@ -196,19 +237,36 @@ fn session(
                 match r {
                     Ok(Some(((), io))) => {
                         let lr = kex.handle_longterm(io, || ks.clone()).await;
-                        ("Kept".to_string(), true, false, permit_calls, Some(match lr {
-                            Ok(()) => "Ok".to_string(),
-                            Err(e) => format!("Err({})", rig::err_name(&e)),
-                        }))
+                        (
+                            "Kept".to_string(),
+                            true,
+                            false,
+                            permit_calls,
+                            Some(match lr {
+                                Ok(()) => "Ok".to_string(),
+                                Err(e) => format!("Err({})", rig::err_name(&e)),
+                            }),
+                        )
                     }
                     Ok(None) => ("Ok".to_string(), false, false, permit_calls, None),
-                    Err(e) => (format!("Err({})", rig::err_name(&e)), false, true, permit_calls, None),
+                    Err(e) => (
+                        format!("Err({})", rig::err_name(&e)),
+                        false,
+                        true,
+                        permit_calls,
+                        None,
+                    ),
                 }
             };
             match tokio::time::timeout(HANG, async { tokio::join!(cf, sf) }).await {
-                Ok((steps, (first, first_kept, first_err, permit_calls, longterm))) => {
-                    Some(Obs { steps, first, first_kept, first_err, permit_calls, longterm })
-                }
+                Ok((steps, (first, first_kept, first_err, permit_calls, longterm))) => Some(Obs {
+                    steps,
+                    first,
+                    first_kept,
+                    first_err,
+                    permit_calls,
+                    longterm,
+                }),
                 Err(_) => None,
             }
         })
@@ -257,7 +315,11 @@ fn run_case(
         "cfg={};permit={};script={}",
         cfg.join(","),
         permit as u8,
-        script.iter().map(|r| common::hex(r)).collect::<Vec<_>>().join(",")
+        script
+            .iter()
+            .map(|r| common::hex(r))
+            .collect::<Vec<_>>()
+            .join(",")
     );
     ctx.add("transitions", script.len() as u64);
     ctx.inc("sessions");
@@ -267,7 +329,11 @@ fn run_case(
             return (format!("panic {e}"), false);
         }
         Ok(None) => {
-            ctx.violation("C29:hang", "connection idle for an hour of virtual time", trace);
+            ctx.violation(
+                "C29:hang",
+                "connection idle for an hour of virtual time",
+                trace,
+            );
             return ("hang".into(), false);
         }
         Ok(Some(o)) => o,
@@ -290,28 +356,60 @@ fn run_case(
         };
         let r = &step.response;
         let cookies: Vec<&Rec> = r.iter().filter(|x| x.kind() == 5).collect();
-        let errors: Vec<u16> = r.iter().filter(|x| x.kind() == 2).flat_map(|x| x.u16s().unwrap_or_default()).collect();
+        let errors: Vec<u16> = r
+            .iter()
+            .filter(|x| x.kind() == 2)
+            .flat_map(|x| x.u16s().unwrap_or_default())
+            .collect();
         let has_ka = r.iter().any(|x| x.kind() == 8);
         let sup_p = r.iter().find(|x| x.kind() == 9).and_then(|x| x.u16s());
         let sup_a = r.iter().find(|x| x.kind() == 10).and_then(|x| x.u16s());
         let gave_something = !cookies.is_empty() || sup_p.is_some() || sup_a.is_some();
         let is_open = step.after == After::Open;
-        text.push(format!("#{i} {:?} token={:?} ka={} -> [{}]{} then {:?}", v.kind, v.token, v.ka, summarize(r), if step.complete { "" } else { " (incomplete)" }, step.after));
+        text.push(format!(
+            "#{i} {:?} token={:?} ka={} -> [{}]{} then {:?}",
+            v.kind,
+            v.token,
+            v.ka,
+            summarize(r),
+            if step.complete { "" } else { " (incomplete)" },
+            step.after
+        ));
         if step.after == After::ExtraData {
-            ctx.violation("C29:extra-data", "server sent bytes after its End-Of-Message", trace.clone());
+            ctx.violation(
+                "C29:extra-data",
+                "server sent bytes after its End-Of-Message",
+                trace.clone(),
+            );
         }
         if !errors.is_empty() && gave_something {
-            ctx.violation("C29:error-with-cookies", format!("request #{i}: response carries an error record and cookies/parameter lists"), trace.clone());
+            ctx.violation(
+                "C29:error-with-cookies",
+                format!(
+                    "request #{i}: response carries an error record and cookies/parameter lists"
+                ),
+                trace.clone(),
+            );
         }
         // cookies of a fixed-key answer must wrap exactly the supplied keys
         if let (Kind::Fk(alg), Some((c2s, s2c))) = (v.kind, &v.keys) {
             for c in &cookies {
                 let good = match ks.decode_cookie(&c.body) {
-                    Ok(d) => rig::aead_id(d.algorithm) == alg && d.c2s.key_bytes() == &c2s[..] && d.s2c.key_bytes() == &s2c[..],
+                    Ok(d) => {
+                        rig::aead_id(d.algorithm) == alg
+                            && d.c2s.key_bytes() == &c2s[..]
+                            && d.s2c.key_bytes() == &s2c[..]
+                    }
                     Err(_) => false,
                 };
                 if !good {
-                    ctx.violation("C29:cookie-keys-differ", format!("request #{i}: a cookie does not decode to the supplied fixed keys"), trace.clone());
+                    ctx.violation(
+                        "C29:cookie-keys-differ",
+                        format!(
+                            "request #{i}: a cookie does not decode to the supplied fixed keys"
+                        ),
+                        trace.clone(),
+                    );
                     break;
                 }
             }
@@ -323,7 +421,11 @@ fn run_case(
                 Kind::Ke => {
                     cnt("first_ke");
                     if is_open || obs.first_kept || has_ka {
-                        ctx.violation("C29:kept-without-request-or-permit", "plain key exchange left the connection open", trace.clone());
+                        ctx.violation(
+                            "C29:kept-without-request-or-permit",
+                            "plain key exchange left the connection open",
+                            trace.clone(),
+                        );
                     }
                     if cookies.len() != 8 || !errors.is_empty() {
                         ctx.violation("C29:ke-not-served", format!("plain key exchange on a new connection: {} cookies, errors {errors:?}", cookies.len()), trace.clone());
@@ -336,20 +438,35 @@ fn run_case(
                         let served = match v.kind {
                             Kind::Fk(alg) => {
                                 cookies.len() == 8
-                                    && r.iter().filter(|x| x.kind() == 1).filter_map(|x| x.u16s()).collect::<Vec<_>>() == vec![vec![0u16]]
-                                    && r.iter().filter(|x| x.kind() == 4).filter_map(|x| x.u16s()).collect::<Vec<_>>() == vec![vec![alg]]
+                                    && r.iter()
+                                        .filter(|x| x.kind() == 1)
+                                        .filter_map(|x| x.u16s())
+                                        .collect::<Vec<_>>()
+                                        == vec![vec![0u16]]
+                                    && r.iter()
+                                        .filter(|x| x.kind() == 4)
+                                        .filter_map(|x| x.u16s())
+                                        .collect::<Vec<_>>()
+                                        == vec![vec![alg]]
                             }
                             Kind::Sup(p, a) => {
                                 let mut want_p = versions_ids.to_vec();
                                 want_p.sort();
                                 let mut got_p = sup_p.clone().unwrap_or_default();
                                 got_p.sort();
-                                sup_p.is_some() == p && sup_a.is_some() == a && (!p || got_p == want_p) && (!a || {
-                                    let g = sup_a.clone().unwrap_or_default();
-                                    let mut pairs: Vec<(u16, u16)> = g.chunks(2).filter(|c| c.len() == 2).map(|c| (c[0], c[1])).collect();
-                                    pairs.sort();
-                                    pairs == vec![(15, 32), (17, 64)]
-                                })
+                                sup_p.is_some() == p
+                                    && sup_a.is_some() == a
+                                    && (!p || got_p == want_p)
+                                    && (!a || {
+                                        let g = sup_a.clone().unwrap_or_default();
+                                        let mut pairs: Vec<(u16, u16)> = g
+                                            .chunks(2)
+                                            .filter(|c| c.len() == 2)
+                                            .map(|c| (c[0], c[1]))
+                                            .collect();
+                                        pairs.sort();
+                                        pairs == vec![(15, 32), (17, 64)]
+                                    })
                             }
                             Kind::Ke => unreachable!(),
                         };
@@ -363,7 +480,14 @@ fn run_case(
                             cnt("first_pool_served");
                         }
                         if is_open != obs.first_kept {
-                            ctx.violation("C29:handle-mismatch", format!("connection open={is_open} but long-lived handle returned={}", obs.first_kept), trace.clone());
+                            ctx.violation(
+                                "C29:handle-mismatch",
+                                format!(
+                                    "connection open={is_open} but long-lived handle returned={}",
+                                    obs.first_kept
+                                ),
+                                trace.clone(),
+                            );
                         }
                         if (is_open || obs.first_kept) && !want_kept {
                             ctx.violation(
@@ -389,7 +513,11 @@ fn run_case(
                         if gave_something {
                             ctx.violation(
                                 "C29:served-without-token",
-                                format!("token {:?} is not in {cfg:?} but the server answered [{}]", v.token, summarize(r)),
+                                format!(
+                                    "token {:?} is not in {cfg:?} but the server answered [{}]",
+                                    v.token,
+                                    summarize(r)
+                                ),
                                 trace.clone(),
                             );
                         }
@@ -403,10 +531,21 @@ fn run_case(
                             cnt("first_pool_rejected_badrequest");
                         }
                         if is_open || obs.first_kept {
-                            ctx.violation("C29:rejected-connection-left-open", "connection stays open after a rejected pool request", trace.clone());
+                            ctx.violation(
+                                "C29:rejected-connection-left-open",
+                                "connection stays open after a rejected pool request",
+                                trace.clone(),
+                            );
                         }
                         if !obs.first_err {
-                            ctx.violation("C29:rejected-but-server-ok", format!("handle_connection returned {} for a rejected request", obs.first), trace.clone());
+                            ctx.violation(
+                                "C29:rejected-but-server-ok",
+                                format!(
+                                    "handle_connection returned {} for a rejected request",
+                                    obs.first
+                                ),
+                                trace.clone(),
+                            );
                         }
                         if obs.permit_calls != 0 {
                             ctx.violation("C29:permit-taken-for-rejected-request", "a long-lived connection slot was taken for an unauthenticated request", trace.clone());
@@ -422,19 +561,30 @@ fn run_case(
                     if !cookies.is_empty() || errors != vec![1] {
                         ctx.violation(
                             "C29:ke-accepted-on-kept-connection",
-                            format!("plain key exchange on a kept-open connection answered [{}]", summarize(r)),
+                            format!(
+                                "plain key exchange on a kept-open connection answered [{}]",
+                                summarize(r)
+                            ),
                             trace.clone(),
                         );
                     } else {
                         ctx.inc("followup_ke_badrequest");
                     }
                     if is_open {
-                        ctx.violation("C29:ke-accepted-on-kept-connection", "connection stays open after a plain key exchange request on it", trace.clone());
+                        ctx.violation(
+                            "C29:ke-accepted-on-kept-connection",
+                            "connection stays open after a plain key exchange request on it",
+                            trace.clone(),
+                        );
                     }
                 }
                 Kind::Fk(_) | Kind::Sup(..) => {
                     let served = errors.is_empty() && gave_something && step.complete;
-                    ctx.inc(if served { "followup_pool_served" } else { "followup_pool_refused" });
+                    ctx.inc(if served {
+                        "followup_pool_served"
+                    } else {
+                        "followup_pool_refused"
+                    });
                     if served && v.token.as_deref().is_some_and(|t| !cfg.contains(&t)) {
                         ctx.inc("followup_served_with_unconfigured_token");
                     }
@@ -445,7 +595,11 @@ fn run_case(
                         ctx.violation("C29:followup-closed-despite-request", format!("request #{i} was served and asked for keep-alive but the connection was closed"), trace.clone());
                     }
                     if !served && is_open {
-                        ctx.violation("C29:rejected-connection-left-open", format!("request #{i} was refused but the connection stays open"), trace.clone());
+                        ctx.violation(
+                            "C29:rejected-connection-left-open",
+                            format!("request #{i} was refused but the connection stays open"),
+                            trace.clone(),
+                        );
                     }
                     if served && is_open && !has_ka {
                         ctx.inc("followup_open_without_keepalive_record");
@@ -466,7 +620,10 @@ fn run_case(
     if let Some(l) = &obs.longterm {
         text.push(format!("longterm={l}"));
     }
-    text.push(format!("first={} permit_calls={}", obs.first, obs.permit_calls));
+    text.push(format!(
+        "first={} permit_calls={}",
+        obs.first, obs.permit_calls
+    ));
     // a script whose tail was never delivered (connection closed earlier) repeats a shorter script
     if !cut_short {
         ctx.distinct(common::hash_of(&trace));
@@ -480,7 +637,11 @@ fn replay(ctx: &Ctx, trace: &str) -> String {
     let mut script = Vec::new();
     for part in trace.split(';') {
         if let Some(v) = part.strip_prefix("cfg=") {
-            cfg = v.split(',').filter(|s| !s.is_empty()).map(|s| s.to_string()).collect();
+            cfg = v
+                .split(',')
+                .filter(|s| !s.is_empty())
+                .map(|s| s.to_string())
+                .collect();
         } else if let Some(v) = part.strip_prefix("permit=") {
             permit = v == "1";
         } else if let Some(v) = part.strip_prefix("script=") {
@@ -495,7 +656,18 @@ fn replay(ctx: &Ctx, trace: &str) -> String {
     let cfg_refs: Vec<&str> = cfg.iter().map(|s| s.as_str()).collect();
     let kex = rig::server(vec![NtpVersion::V4, NtpVersion::V5], cfg.clone());
     let ks = keyset();
-    run_case(ctx, &rt(), &rig::raw_connector(), &kex, &ks, &cfg_refs, &[0, 0x8001], permit, &script).0
+    run_case(
+        ctx,
+        &rt(),
+        &rig::raw_connector(),
+        &kex,
+        &ks,
+        &cfg_refs,
+        &[0, 0x8001],
+        permit,
+        &script,
+    )
+    .0
 }
 
 #[test]
@@ -522,10 +694,20 @@ fn check() {
 
     let versions = vec![NtpVersion::V4, NtpVersion::V5];
     let versions_ids = [0u16, 0x8001];
-    let servers: Vec<KeyExchangeServer> = CFGS.iter().map(|c| rig::server(versions.clone(), c.iter().map(|s| s.to_string()).collect())).collect();
+    let servers: Vec<KeyExchangeServer> = CFGS
+        .iter()
+        .map(|c| rig::server(versions.clone(), c.iter().map(|s| s.to_string()).collect()))
+        .collect();
     let ks = keyset();
     let connector = rig::raw_connector();
-    let kinds = [Kind::Ke, Kind::Fk(15), Kind::Fk(17), Kind::Sup(true, false), Kind::Sup(false, true), Kind::Sup(true, true)];
+    let kinds = [
+        Kind::Ke,
+        Kind::Fk(15),
+        Kind::Fk(17),
+        Kind::Sup(true, false),
+        Kind::Sup(false, true),
+        Kind::Sup(true, true),
+    ];
 
     // ---- first requests
     struct First {
@@ -539,7 +721,11 @@ fn check() {
             for tok in TOKENS {
                 for ka in [false, true] {
                     for permit in [false, true] {
-                        firsts.push(First { cfg, permit, req: request(kind, tok, ka) });
+                        firsts.push(First {
+                            cfg,
+                            permit,
+                            req: request(kind, tok, ka),
+                        });
                     }
                 }
             }
@@ -548,7 +734,17 @@ fn check() {
     let kept: std::sync::Mutex<Vec<usize>> = std::sync::Mutex::new(Vec::new());
     common::par_for_with(firsts.len() as u64, 4, rt, |rt, i| {
         let f = &firsts[i as usize];
-        let (obs, open) = run_case(&ctx, rt, &connector, &servers[f.cfg], &ks, CFGS[f.cfg], &versions_ids, f.permit, std::slice::from_ref(&f.req));
+        let (obs, open) = run_case(
+            &ctx,
+            rt,
+            &connector,
+            &servers[f.cfg],
+            &ks,
+            CFGS[f.cfg],
+            &versions_ids,
+            f.permit,
+            std::slice::from_ref(&f.req),
+        );
         ctx.inc("evaluations");
         if open {
             kept.lock().unwrap().push(i as usize);
@@ -577,7 +773,10 @@ fn check() {
     let mut frontier: Vec<(usize, Vec<usize>)> = kept.iter().map(|f| (*f, Vec::new())).collect();
     for d in 1..=depth {
         if ctx.over_budget() {
-            ctx.cap_hit(&format!("follow-up depth {d} not started; depth<={} complete", d - 1));
+            ctx.cap_hit(&format!(
+                "follow-up depth {d} not started; depth<={} complete",
+                d - 1
+            ));
             break;
         }
         let n = (frontier.len() * k) as u64;
@@ -591,7 +790,17 @@ fn check() {
             for s in &w {
                 script.push(alphabet[*s].clone());
             }
-            let (obs, open) = run_case(&ctx, rt, &connector, &servers[f.cfg], &ks, CFGS[f.cfg], &versions_ids, f.permit, &script);
+            let (obs, open) = run_case(
+                &ctx,
+                rt,
+                &connector,
+                &servers[f.cfg],
+                &ks,
+                CFGS[f.cfg],
+                &versions_ids,
+                f.permit,
+                &script,
+            );
             ctx.inc("evaluations");
             if open {
                 next.lock().unwrap().push((*fi, w));
@@ -602,7 +811,10 @@ fn check() {
         });
         let mut next = next.into_inner().unwrap();
         next.sort();
-        ctx.add("followup_scripts_leaving_connection_open", next.len() as u64);
+        ctx.add(
+            "followup_scripts_leaving_connection_open",
+            next.len() as u64,
+        );
         frontier = next;
         ctx.set("followup_depth_completed", d as u64);
     }
